@@ -173,12 +173,12 @@ CLAIMED["C14"] = dict(
          "evaluators); C14_assign_frame - an assignment changes no variable other than its target; C14_element_frame - a[i] = v "
          "changes no other element; C14_call_by_value - the caller keeps the environment the argument evaluation left; "
          "C14_if_taken_branch / C14_loop_order - an if runs the branch taken, a loop its body once per element in order. "
-         "About the model of the compiler (Model/BitSem.lean, core fragment: scalars, tuples, structs, arrays, if, match, && / ||, blocks, let with patterns, let mut, "
+         "About the model of the compiler (Model/BitSem.lean, core fragment: scalars, tuples, structs, enums, arrays, if, match, && / ||, blocks, let with patterns, let mut, "
          "assignment to variables and through .i / .f / [i] accessors, for loops, calls): C14_compiled_scope / C14_compiled_stmts_scope - compiled code keeps the scope stack (same "
          "names, types, order), so the environments merged after an if or a match line up; C14_merge - the variable-by-variable merge "
          "(mux_envs) of two such environments is the environment of the branch taken; C14_compiled_state - after any statements "
          "of the fragment the wires of EVERY variable in scope encode the value the source semantics give it. PARTIAL: outside "
-         "that fragment (enums, for-join, constants) the merging is tied to the semantics by the "
+         "that fragment (for-join, constants) the merging is tied to the semantics by the "
          "correspondence: generated statement-heavy programs that return ALL visible variables, compiled by /repo in 4 "
          "circuit configurations and compared bit for bit with the Lean semantics.",
     design_ref="DESIGN.md §6 C14",
@@ -274,12 +274,12 @@ CLAIMED["C17"] = dict(
 CLAIMED["C01"] = dict(
     text="Lean theorems C01_core / C01_core_expr / C01_core_defined (Props/C01.lean): for the core fragment - Booleans and "
          "integers of EVERY width with all their operators (!, unary -, + - * / %, << >>, < > <= >= == !=, & | ^, && ||, `as`), "
-         "tuples, structs and arrays nested to any depth (literals, t.i, s.f, [e; n], lo..hi, a[i] with its bounds check), if/else "
-         "as expression and as statement, match on Booleans, integers, tuples and structs with literal, range, binding, tuple and "
-         "struct patterns (arms covering the type: last arm a binding or `_`, or exhaustive by the verified reference procedure "
+         "tuples, structs, enums and arrays nested to any depth (literals, t.i, s.f, [e; n], lo..hi, a[i] with its bounds check), if/else "
+         "as expression and as statement, match on Booleans, integers, tuples, structs and enums with literal, range, binding, tuple, "
+         "struct and enum patterns (arms covering the type: last arm a binding or `_`, or exhaustive by the verified reference procedure "
          "of C08), blocks, (), let with irrefutable patterns, let mut, assignment to a variable and through any chain of "
          ".i / .f / [i] accessors, `for pattern in array`, calls of functions (inlined to any depth, programs without "
-         "constants); values of enum types may be held, passed and returned - "
+         "constants) - "
          "and for every program, inlining depth, function body, environment of well-typed values and fuel: if the source "
          "semantics (Model/SrcSem.lean) return a value, the bit-level evaluation Bit.bitStmts - which follows compile.rs "
          "construct by construct (both branches and all arms compiled, loops unrolled, value, panic record and every variable "
@@ -291,8 +291,8 @@ CLAIMED["C01"] = dict(
          "(Proofs/Arith*.lean, BitOps*.lean), of the multiplier, divider, shifter and the repeated addition used for positive "
          "literal factors, and on the layout lemmas of the encoding (Proofs/BitAgg.lean). One abstraction: a[i] and a[i] = v "
          "are modelled by the element they select / replace, not by their mux trees. PARTIAL: the fragment excludes "
-         "multiplication by a negative literal (where the recorded C03 finding lives), enum literals and patterns, "
-         "== on aggregates, for-join loops and constants; for those, "
+         "multiplication by a negative literal (where the recorded C03 finding lives), "
+         "== on aggregates, for-join loops / join and constants; for those, "
          "and for the step from Bit.bitStmts to real gates, the property is explored: generated programs (the generator "
          "builds the syntax tree itself) are compiled as SSA and register circuit with and without de-duplication and compared "
          "with the Lean source semantics on 6 argument tuples each; programs of the fragment are additionally run through "
